@@ -45,6 +45,16 @@ CHECKS = {
    "Generated upstream header sets (lifetime, blocking, harmless and extension directives in any order, casing, separators, 1-3 lines, quoted arguments, duplicates; Set-Cookie incl. an empty first line; valid and invalid Age; values 0..20 digits; Expires/Last-Modified; 12 status codes; 7 methods), each on a fresh URL, first as one request or a burst of 3 and then repeated: a reuse of the first response is a violation unless the predicate says shareable; every hit has no upstream contact, every other successful answer exactly one, non-GET/HEAD are forwarded exactly once each.",
    "only stored => shareable is judged (the converse is counted); duplicate directives with different values, unparsable numbers and invalid Age are left unjudged",
    "DESIGN.md 6/C03"),
+ "C13": ("inproc", "exploration",
+   "decision-table monitor (reference table vs HTTPResponse.Fill and vs the running server) + compressor call counters (hook) + byte comparison with the best-compression profile",
+   "The table dimensions of the statement are enumerated completely at the Fill level (12 Accept-Encoding values incl. tokens that merely contain 'gzip', 7 stored-variant subsets, 4 sizes around two thresholds, default/custom filter, 6 content types, direct and after Cacheable()) with random bodies per cell; end-to-end through servers with default and configured thresholds/filters: compressor call counters around every hit (no per-request recompression), stored variants byte-compared with the best-compression profile's output.",
+   "where the raw length and the lengths pike can see straddle the threshold both outcomes are accepted; Accept-Encoding without q-values",
+   "DESIGN.md 6/C13"),
+ "C05": ("inproc", "exploration",
+   "end-to-end differential monitor: client-side decode with reference decoders against the origin's logged original; header multiset comparison",
+   "Generated (body length incl. threshold neighbours and 2 MiB, kind incl. >1000x compressible, upstream encoding identity/gzip/br/lz4/zst/snz, content type, status, cacheable or not, GET/POST) on six servers (min-length default/1/100/64kb, custom filter, compress levels 1, 9/11, out of range, tiny cache with store); every path of the statement: fetching request and coalesced waiters, later hits, hit after eviction and restore from the store, hit-for-pass, passed; each request with its own Accept-Encoding list. Judged: status, decoded body identical, Content-Encoding among the accepted tokens, Content-Length, end-to-end headers as multiset with per-name order.",
+   "reference codecs for br/lz4/zst/snz are the libraries pike links (self-checked by round trip); Date/Connection/Content-Length/Content-Encoding/Age/X-Status and hop-by-hop headers excluded",
+   "DESIGN.md 6/C05"),
 }
 ALL = ["C%02d" % i for i in range(1, 21)]
 NOT_BUILT_REASON = "no check is registered for this property yet (framework under construction; see DESIGN.md Appendix B build order)"
